@@ -290,17 +290,18 @@ def _exec_one(plan, fail, missing, kill_at, root, res, sigctx, twin=False):
         for fn, spec in plan["files"].items():
             if c0.get(fn) != _file_bytes(spec):
                 return viol("input-files", f"input file {fn!r} before the first command holds {c0.get(fn)!r:.80} instead of {_file_bytes(spec)!r:.80}")
-        extra = set(fe.log[0]["listing"]) - set(plan["files"]) - {f"{nm}.out" for _, nm in cmds if nm} - {f"{nm}.err" for _, nm in cmds if nm}
-        if extra:
-            return viol("private-directory", f"the job directory held foreign entries {sorted(extra)} before the first command")
+        # (helper files of the runner's own in that directory - a marker, a copy of the job - are its business: privacy is
+        #  judged where it can be violated, by the overlapping-twin cases and by the residue clause)
         # ---- environment
         want_env = dict(ambient)
         if plan["envars"]:
             want_env.update(plan["envars"])
         for i, r_ in enumerate(fe.log):
-            if r_["env"] != want_env:
-                diff = {k: (r_["env"] or {}).get(k) for k in set(want_env) ^ set(r_["env"] or {})}
-                diff.update({k: (r_["env"][k], want_env[k]) for k in want_env if r_["env"] and k in r_["env"] and r_["env"][k] != want_env[k]})
+            got_env = r_["env"] if r_["env"] is not None else dict(ambient)      # env=None: the child inherits the runner's
+            # every ambient variable and every override must arrive with its value; variables the runner ADDS for the
+            # commands (a job id, a thread count default) are not forbidden by the statement
+            diff = {k: (got_env.get(k), v) for k, v in want_env.items() if got_env.get(k) != v}
+            if diff:
                 return viol("environment", f"command {i} saw an environment differing from ambient+envars in {diff}")
     # ---- scratch residue (also when the runner was killed the statement's 'no residue' is about normal exits only)
     left = sorted(os.listdir(scratch)) if os.path.isdir(scratch) else []
